@@ -546,6 +546,24 @@ func (pp *panicProver) nonNegValue(v ssa.Value, depth int) bool {
 			}
 		}
 		return true
+	case *ssa.Extract:
+		// one of several results of a library function: every return gives a
+		// non-negative value there
+		if cl, ok := x.Tuple.(*ssa.Call); ok {
+			if cal := cl.Call.StaticCallee(); cal != nil && len(cal.Blocks) > 0 && fnPkg(cal) != nil && IsLibPath(fnPkg(cal).Pkg.Path()) {
+				cp := newPanicProver(pp.p, cal)
+				n := 0
+				for _, b := range cal.Blocks {
+					if ret, ok := terminator(b).(*ssa.Return); ok && x.Index < len(ret.Results) {
+						n++
+						if !cp.nonNegValue(returnOperand(ret, x.Index), depth+1) {
+							return false
+						}
+					}
+				}
+				return n > 0
+			}
+		}
 	case *ssa.Call:
 		if _, ok := isBuiltinCall(x, "len"); ok {
 			return true
@@ -785,6 +803,10 @@ func rulePanicSites(p *Program, r *Reporter) {
 		}
 	}
 	sort.Slice(fns, func(i, j int) bool { return p.FnName(fns[i]) < p.FnName(fns[j]) })
+	outsideRecover = map[*ssa.Function]bool{}
+	for _, f := range fns {
+		outsideRecover[f] = true
+	}
 	three, _, okLen := lengthTable(p)
 	oc := p.Opcodes()
 	counts := map[string]int{}
@@ -1057,6 +1079,9 @@ func (pp *panicProver) proveIndex(facts []pedge, index, base ssa.Value, sortIdx 
 	if why := pp.reportedIndex(index, base); why != "" {
 		return "shape", why
 	}
+	if v, why := pp.atCallSites(idx, idx, base, "index"); v != "" {
+		return v, why
+	}
 	return "fail", fmt.Sprintf("index %s into a value of length %s is not proven within bounds (lower %v, upper %v; %d fact(s))", linStr(idx), linStr(ln), lower, upper, len(facts))
 }
 
@@ -1093,6 +1118,9 @@ func (pp *panicProver) proveSlice(facts []pedge, x *ssa.Slice, walkerCb bool) (s
 		if proveLE(facts, lin{"", 0}, pos) && proveLE(facts, pos, lin{ln.term, ln.off - 1}) {
 			return "shape", "the two operand bytes after an opcode byte that is proven to lie inside the code: present for well-formed programs (the compiler emits whole instructions; operand presence per opcode is R-EMITLEN's subject)"
 		}
+	}
+	if v, why := pp.atCallSites(lo, hi, x.X, "slice"); v != "" {
+		return v, why
 	}
 	return "fail", fmt.Sprintf("slice bounds [%s:%s] of a value of length %s are not proven (0<=low %v, low<=high %v, high<=len %v)", linStr(lo), linStr(hi), linStr(ln), ok1, ok2, ok3)
 }
@@ -2024,3 +2052,87 @@ func globalTableNonNeg(p *Program, g *ssa.Global) bool {
 	}
 	return false
 }
+
+// atCallSites: the position is a parameter of this function and the indexed
+// value another; at every call site (the function is only ever called
+// directly) the caller's comparisons put the position inside the value it
+// hands over — for the operand bytes of an instruction, the opcode's position.
+func (pp *panicProver) atCallSites(lo, hi lin, base ssa.Value, kind string) (string, string) {
+	bprm, ok := base.(*ssa.Parameter)
+	if !ok || lo.term == "" || lo.term != hi.term || pp.fn.Parent() != nil {
+		return "", ""
+	}
+	pi, pb := -1, -1
+	for i, prm := range pp.fn.Params {
+		if prm.Name() == lo.term && isInt(prm.Type()) {
+			pi = i
+		}
+		if prm == bprm {
+			pb = i
+		}
+	}
+	if pi < 0 || pb < 0 {
+		return "", ""
+	}
+	// never used as a value
+	for _, g := range pp.p.Fns {
+		for _, b := range g.Blocks {
+			for _, ins := range b.Instrs {
+				for _, op := range ins.Operands(nil) {
+					if *op == ssa.Value(pp.fn) {
+						if cc := callOf(ins); cc == nil || cc.Value != ssa.Value(pp.fn) {
+							return "", ""
+						}
+					}
+				}
+			}
+		}
+	}
+	sites := staticCallSites(pp.p, pp.fn)
+	if len(sites) == 0 {
+		return "", ""
+	}
+	verdict := "proven"
+	judged := 0
+	for _, site := range sites {
+		g := site.Parent()
+		args := site.Common().Args
+		if g == nil || pi >= len(args) || pb >= len(args) {
+			return "", ""
+		}
+		if outsideRecover != nil && !outsideRecover[g] {
+			continue // a call under Execute's recover: a panic there is turned into an error
+		}
+		judged++
+		gp := newPanicProver(pp.p, g)
+		facts := gp.facts(site.Block())
+		pos := gp.canon(args[pi])
+		ln := gp.lenOf(args[pb])
+		nonNeg := gp.nonNegValue(args[pi], 0)
+		within := func(l lin) bool {
+			at := lin{pos.term, pos.off + l.off}
+			lower := proveLE(facts, lin{"", 0}, at) || (nonNeg && l.off >= 0)
+			return lower && proveLE(facts, at, lin{ln.term, ln.off - 1})
+		}
+		switch {
+		case kind == "index" && within(lo):
+		case kind == "slice" && within(lo) && within(lin{hi.term, hi.off - 1}):
+		case isByteSlice(base.Type()) && within(lin{lo.term, 0}) && lo.off >= 0 && hi.off <= 3:
+			// the operand bytes after an opcode byte that lies inside the code
+			verdict = "shape"
+		default:
+			return "", ""
+		}
+	}
+	if judged == 0 {
+		return "", ""
+	}
+	if verdict == "shape" {
+		return "shape", fmt.Sprintf("at each of the %d call site(s) the position handed over is proven to lie inside the code handed over; the operand bytes after it are present for well-formed programs (whole instructions are emitted; R-EMITLEN)", len(sites))
+	}
+	return "proven", fmt.Sprintf("at each of the %d call site(s) the caller's comparisons put the position inside the value it hands over", len(sites))
+}
+
+// outsideRecover: the functions R-PANICSITES judges (reachable from the API
+// without passing through Execute); set by the rule.
+var outsideRecover map[*ssa.Function]bool
